@@ -14,12 +14,16 @@ RULE = ("Every rule x content drawn per content-rule kind from classes whose ver
         "judged).  Exact boundary values are enumerated for every rule of the kind (Cartesian product), the classes are "
         "sampled with Hypothesis.  The node has valid attributes and a valid child sequence (mixed-content rules also "
         "with children and no text).  Both modes must agree with the verdict; rejection is a MetapypeRuleError / a "
-        "content error tuple.  Non-trivial: a judged (rule, content) with non-None content, or None under a "
+        "content error tuple.  Further engines: one decimal string under a drawn order of all float-family rules in one "
+        "process (the verdict per rule follows from its bounds, whatever was validated before); empty content next to "
+        "a child the rule does not allow under non-mixed non-empty rules (still a content error in collecting mode); "
+        "text with lone surrogates (judged under typed rules, totality only elsewhere).  Non-trivial: a judged (rule, content) with non-None content, or None under a "
         "non-empty rule; distinct pairs counted.")
 ASSUMPTIONS = [
     "class verdicts come from how the string was constructed (grammar of canonical forms, arithmetic on bounds), not from a parser",
     "lenient spellings tolerated by Python's parsers, None under a typed rule without nonEmptyContent, and ''/whitespace under emptyContent are unspecified; "
     "under nonEmptyContent every string of length >= 1 (whitespace included) is non-empty",
+    "expectations are read from the shipped rules.json, not from the table the library loaded",
     "canonical decimals are parsed with float() only to compare the value with the range bounds",
 ]
 
